@@ -37,7 +37,8 @@ namespace occa {
 
     modeMemory_t* reserve(const udim_t bytes);
 
-    void resize(const udim_t bytes);
+    void resize(const udim_t bytes,
+                const bool forcePacking = false);
 
     void setAlignment(const udim_t newAlignment);
 
